@@ -202,7 +202,7 @@ def run(ctx: vlib.Ctx):
     wd = H.Workdir("c09")
     try:
         specs = [H.schema_spec(s) for s in H.HAND_SCHEMAS]
-        for i in range(ctx.budget(4, 25)):
+        for i in range(ctx.budget(4, 12)):
             specs.append(H.schema_spec(H.random_schema(rng, i)))
         texts = {s["name"]: wd.add_schema(s) for s in specs}
         wd.enter()
@@ -214,16 +214,16 @@ def run(ctx: vlib.Ctx):
             metas = [[("TYPE", "X"), ("VERSION", "1")], [("TYPE", "X")], [("TYPE", "X"), ("VERSION", "1"), ("STATUS", "active"), ("EXTRA", "y")], []]
             for fname, fd in sd.fields.items():
                 vals = [v for v in H.field_value_pool(fd, api=False) if H.text_safe(v)]
-                k = len(vals) if (wide and name in hand_names) else ctx.budget(5, 25)
+                k = len(vals) if (wide and name in hand_names) else ctx.budget(5, 10)
                 for v in (vals if k >= len(vals) else rng.sample(vals, k)):
                     cases.append((name, H.doc_one_field(sd, fname, v, nested=rng.random() < 0.3, second_block=rng.random() < 0.15), rng.choice(metas)))
-            for _ in range(ctx.budget(12, 150) if name in hand_names else ctx.budget(4, 30)):
+            for _ in range(ctx.budget(12, 60) if name in hand_names else ctx.budget(4, 12)):
                 t = H.random_doc(rng, sd, api=False)
                 if H.tree_text_safe(t):
                     cases.append((name, t, rng.choice(metas)))
         jobs = []
         for i, (name, tree, meta) in enumerate(cases):
-            nresp = len(H.RESPELLINGS) if wide else 4
+            nresp = 6 if wide else 4
             ids = sorted(rng.sample(range(len(H.RESPELLINGS)), nresp))
             with_cli = wide and rng.random() < 0.04
             jobs.append((name, texts[name], tree, meta, ids, with_cli, i))
